@@ -165,8 +165,18 @@ def t_batcher_direct(E):
         func = Obj('callable', tag='batchfn')
         opts = {p.arg: fresh_opt(E, p.arg) for p in fn.args.kwonlyargs}
         Bn = E.builtins
-        Bn['__getattr_ext__'] = lambda E_, o, name, node: (E.fresh_val('meta') if o is func and name.startswith('__')
-                                                           else None)
+        def attr_ext(E_, o, name, node):
+            if o is func and name.startswith('__'):
+                return E.fresh_val('meta')
+            if isinstance(o, VVal) and o.t.sort() == LoopS and name in ('is_running', 'is_closed'):
+                # a loop used successively (run_until_complete, then again later) is not running in between, e.g. while
+                # ANOTHER loop calls the function; it is closed only when its owner is done with it for good
+                if name == 'is_closed':
+                    return VStub('loop.is_closed', lambda E_, a, k: VBool(False))
+                return VStub('loop.is_running', lambda E_, a, k: VBool(
+                    True if z3.eq(o.t, loops[cur['i']]) else E.fresh('other_loop_is_running_right_now', z3.BoolSort())))
+            return None
+        Bn['__getattr_ext__'] = attr_ext
         loops = [z3.Const('loopA', LoopS), z3.Const('loopB', LoopS)]
         E.assume(loops[0] != loops[1])
         cur = {'i': 0}
@@ -190,6 +200,18 @@ def t_batcher_direct(E):
             raise Unsupported('subscript store', node)
         Bn['__getitem__'] = getitem
         Bn['__setitem__'] = setitem
+
+        def delitem(E_, o, k, node):
+            if isinstance(o, Obj) and o.cls == 'WeakKeyDict' and isinstance(k, VVal):
+                for l in list(reg):
+                    if z3.eq(k.t, l):
+                        st.setdefault('dropped', []).append(reg.pop(l))
+                        return
+                E.throw('KeyError')
+            raise Unsupported('del', node)
+        Bn['__delitem__'] = delitem
+        Bn['__iterate__'] = lambda E_, o, node: (VList([VVal(l) for l in reg]) if isinstance(o, Obj) and
+                                                 o.cls == 'WeakKeyDict' else None)
         called = []
 
         def call_batcher(E_, fobj, args, kwargs, node):
